@@ -290,6 +290,7 @@ func families(tier string) []fw.Family {
 	sc := scenarios(tier)
 	hs := histories(tier)
 	rh := rendererHistories(tier)
+	fh := freshHistories(tier)
 	sort.SliceStable(hs, func(i, j int) bool { return len(hs[i].idx) < len(hs[j].idx) })
 	maxExec := int64(300000)
 	if tier == "thorough" {
@@ -310,6 +311,15 @@ func families(tier string) []fw.Family {
 		{Name: "renderer-histories", N: int64(len(rh)),
 			Check: func(i int64, r *fw.R) { history(r, rh[i]) },
 			Desc:  func(i int64) string { return "sequential history then probe: " + rh[i].String() }},
+		{Name: "fresh-process histories (history and reference value each in a process of their own)", N: int64(len(fh)),
+			Check: func(i int64, r *fw.R) { freshHistory(r, fh[i]) },
+			Desc: func(i int64) string {
+				var names []string
+				for _, k := range fh[i] {
+					names = append(names, Bodies[k].Name)
+				}
+				return "in a fresh process: " + strings.Join(names, "; then ")
+			}},
 	}
 }
 
